@@ -112,6 +112,13 @@ def forbidden_table(ctx):
     for n in ("load", "loadstring", "dofile", "loadfile", "getfenv", "setfenv", "require", "module", "newproxy", "collectgarbage"):
         if G[n] is not None:
             f[n] = G[n]
+    # the ONE metatable lupa gives every Python object wrapped into this runtime (the Lua-Python bridge's dispatch table)
+    try:
+        bmt = ctx.lua.eval("function(o) return debug.getmetatable(o) end")(len)
+        if bmt is not None:
+            f["lupa-bridge-metatable"] = bmt
+    except Exception:
+        pass
     for k in list(f):
         # whitelisted by the sandbox on purpose
         if k in ("os.clock", "os.date", "os.difftime", "os.time", "debug.traceback"):
@@ -127,14 +134,17 @@ def scan(cap, env, frame, obs, state_name):
     G = lua.globals()
     forb = forbidden_table(ctx)
     helpers = lua.eval(r'''
-function(forbidden)
+function(forbidden, spcall)
+  -- calls are made the way a module makes them: through the SANDBOX's pcall (what it does to error values is part
+  -- of what a module can obtain)
+  local pcall = spcall or pcall
   local seen, forb = {}, {}
   for name, obj in pairs(forbidden) do forb[obj] = name end
   local H = {}
   function H.mark(o) if seen[o] then return false end seen[o] = true return true end
   function H.forbidden(o) return forb[o] end
   function H.typ(o) return type(o) end
-  function H.mt(o) local ok, m = pcall(getmetatable, o) if ok and type(m) == "table" then return m end return nil end
+  function H.mt(o) local m = getmetatable(o) if type(m) == "table" then return m end return nil end
   function H.strmt() return getmetatable("") end
   function H.call1(f, a) return pcall(f, a) end
   function H.call0(f) return pcall(f) end
@@ -148,7 +158,7 @@ function(forbidden)
   function H.callv(f, args, n) return pcall(f, unpack(args, 1, n)) end
   function H.pcall_of(f, a) return pcall(pcall, f, a) end
   return H
-end''')(lua.table_from(forb))
+end''')(lua.table_from(forb), env["pcall"])
     names = set(HOSTLIBS)
     for tname in ("loaded", "preload"):
         try:
@@ -299,9 +309,22 @@ end''')(lua.table_from(forb))
             obs.add("python-types-reached", tname)
             allowed_callable = callable(o) and not isinstance(o, type)
             if isinstance(o, BaseException):
-                # an error VALUE that reached Lua: inert by itself, but everything it carries is reachable
+                # an error VALUE that reached Lua: a Python object that is neither an intended helper nor an immutable
+                # argument value, and everything it carries is reachable (requests exceptions carry live connection pools)
                 allowed_callable = True
                 stats["python-exception-values"] += 1
+                viol.append(("python-exception-object-reachable/via=%s" % via, "%s at %s" % (tname, path)))
+            # what the SANDBOX's own getmetatable answers for a wrapped Python object
+            try:
+                sgm = env["getmetatable"]
+                if sgm is not None:
+                    stats["capability-calls"] += 1
+                    r = helpers.call1(sgm, o)
+                    if isinstance(r, tuple) and r and r[0]:
+                        for x in r[1:]:
+                            push(x, "getmetatable(%s)" % path, "getmetatable(python-object)", depth + 1)
+            except Exception:
+                pass
             if isinstance(o, (tuple, list)):
                 for i, x in enumerate(o):
                     push(x, "%s[%d]" % (path, i), via, depth)
@@ -371,6 +394,7 @@ end
 local function errdamage(e, tag)
   if type(e) ~= "userdata" and type(e) ~= "table" then return "" end
   local out = ""
+  if type(e) == "userdata" then out = "PYEXC;" end
   for _, a in ipairs({"obj", "name", "value", "filename", "filename2", "object", "with_traceback", "add_note", "__traceback__", "__cause__", "__context__", "tb_frame"}) do
     pcall(function() out = out .. damage(e[a], tag .. a) end)
   end
@@ -410,6 +434,12 @@ end
             SHADOW[nm] = [("Module:" + lib, body)]
             add(nm, "local ok, m = pcall(require, '%s') if ok then out = out .. damage(m, 'sh') end ok, m = pcall(require, 'Module:%s') if ok then out = out .. damage(m, 'shm') end "
                     "if package and package.loaded then out = out .. damage(package.loaded['%s'], 'shl') end out = out .. damage(_G['%s'], 'shg')" % (lib, lib, lib, lib))
+    add("error-value-of-network-helper", "for _, n in ipairs({'mw_wikibase_getlabel_python'}) do local h = _G[n] if h then local ok, e = pcall(h, 'Q42') if not ok then out = out .. errdamage(e, 'nw') pcall(function() out = out .. damage(e.args[0].pool, 'nwp') if e.args[0].pool.ConnectionCls then out = out .. 'POOL;' end end) pcall(function() out = out .. damage(e.request, 'nwr') end) end end end")
+    add("bridge-metatable", "for k, v in pairs(_G) do if type(v) == 'userdata' then local ok, mt = pcall(getmetatable, v) if ok and type(mt) == 'table' then out = out .. 'BRIDGEMT;' pcall(function() local o = mt.__call mt.__call = function(self, ...) PWNED_CALLS = (PWNED_CALLS or 0) + 1 return o(self, ...) end out = out .. 'BRIDGEMT-WRITTEN;' mt.__call = o end) end break end end")
+    add("rel2abs-symlink", "for _, p in ipairs({LNKPATH, '/' .. LNKPATH, '../../../../../../../../' .. LNKPATH}) do pcall(function() out = out .. 'P=' .. tostring(frame:callParserFunction('#rel2abs', p)) .. ';' end) pcall(function() out = out .. 'Q=' .. tostring(frame:preprocess('{{#rel2abs:' .. p .. '}}')) .. ';' end) pcall(function() out = out .. 'W=' .. tostring(frame:callParserFunction('#rel2abs', 'x', p)) .. ';' end) end")
+    add("internal-functions", "for _, n in ipairs({'_python_append_env','_python_top_env','_lua_reset_env','_lua_set_python_loader','_cached_mod','_new_loader','_save_mod','_lua_set_timeout','_lua_clear_timeout_hook','_raw_pcall'}) do if _G[n] ~= nil then out = out .. n .. ';' end end "
+        "pcall(function() for i = 1, 3 do _python_append_env({}) end end) pcall(function() _save_mod('Module:ok', {f = function() return 'FORGED' end}) end) pcall(function() _save_mod('ok', {f = function() return 'FORGED' end}) end) "
+        "pcall(function() _lua_set_python_loader(function(name) return 'return {f = function() return \\'FORGED\\' end}' end) end)")
     add("getfenv-levels", "if getfenv then for lv = 0, 6 do pcall(function() out = out .. damage(getfenv(lv), 'gf' .. lv) end) local ok, g = pcall(getfenv, lv) if ok then out = out .. damage(g, 'gfp' .. lv) end end end")
     add("loaddata-env", "local ok, d = pcall(mw.loadData, '%s:dat') if ok then out = out .. damage(getmetatable(d), 'ldm') end" % mod_ns)
     add("debug-lib", "if debug then for _, n in ipairs({'getinfo','getupvalue','getregistry','sethook','getfenv','setmetatable','getmetatable'}) do if debug[n] then out = out .. 'debug.' .. n .. ';' end end pcall(function() local r = debug.getregistry() out = out .. damage(r, 'reg') end) end")
@@ -432,11 +462,18 @@ def run_attacks(spec, obs):
     os.makedirs(os.path.dirname(hostlua), exist_ok=True)
     with open(hostlua + ".lua", "w") as f:
         f.write("return 's3cr3t-canary-value'")
+    # a symbolic link on the host whose TARGET is the secret: nothing a page can do may reveal where it points
+    lnk = os.path.join(tmp, "c06_hostfile", "lnk")
+    try:
+        os.unlink(lnk)
+    except OSError:
+        pass
+    os.symlink("/nonexistent/s3cr3t-canary-value", lnk)
     results = []
     with fresh(lua=True) as ctx:
         atts = attacks()
         for name, src in atts:
-            ctx.add_page("Module:att " + name.replace("_", "-"), 828, src.replace("PWNFILE", json.dumps(pwn)).replace("HOSTLUA", "(" + json.dumps(hostlua) + ")"), model="Scribunto")
+            ctx.add_page("Module:att " + name.replace("_", "-"), 828, src.replace("PWNFILE", json.dumps(pwn)).replace("HOSTLUA", "(" + json.dumps(hostlua) + ")").replace("LNKPATH", "(" + json.dumps(lnk.lstrip("/")) + ")"), model="Scribunto")
         ctx.add_page("Module:dat", 828, "return {a = 1}", model="Scribunto")
         ctx.add_page("Module:ok", 828, "local e = {}\nfunction e.f(fr) return 'ok' end\nreturn e", model="Scribunto")
         ctx.db_conn.commit()
@@ -464,11 +501,19 @@ def run_attacks(spec, obs):
                     fields0 = (ctx.lang_code, ctx.project, str(ctx.db_path))
                     ctx.start_page("Pg")
                     before = set(os.listdir(adir))
+                    stacks_before = (list(ctx.expand_stack), len(ctx.lua_env_stack), len(ctx.lua_frame_stack))
                     try:
-                        out = ctx.expand("{{#invoke:att %s|f}}" % name.replace("_", "-"), timeout=5)
+                        out = ctx.expand("{{#invoke:att %s|f}}" % name.replace("_", "-"), timeout=20)
                     except BaseException as e:   # noqa
                         out = "EXC %s" % type(e).__name__
                     after = set(os.listdir(adir))
+                    stacks_after = (list(ctx.expand_stack), len(ctx.lua_env_stack), len(ctx.lua_frame_stack))
+                    try:
+                        ctx.start_page("Pg2")
+                        follow = ctx.expand("{{#invoke:ok|f}}")
+                        ctx.start_page("Pg")
+                    except BaseException as e:   # noqa
+                        follow = "EXC %s" % type(e).__name__
                     try:
                         npages = ctx.db_conn.execute("SELECT count(*), coalesce(sum(length(body)),0) FROM pages").fetchone()
                     except Exception:
@@ -477,7 +522,13 @@ def run_attacks(spec, obs):
                     can = {"file-created": sorted(after - before), "secret-leaked": "s3cr3t-canary-value" in out,
                            "pages-table-changed": tuple(npages) != tuple(npages0),
                            "context-fields-changed": (ctx.title, ctx.lang_code, ctx.project, str(ctx.db_path)) != ("Pg",) + fields0,
-                           "host-global-set": G["PWNED_GLOBAL"] is not None}
+                           "host-global-set": G["PWNED_GLOBAL"] is not None,
+                           "context-stacks-changed(expand_stack,lua_env_stack,lua_frame_stack)": stacks_after != stacks_before,
+                           "later-invocation-on-the-context-altered": follow != "ok",
+                           "python-exception-object-obtained": "PYEXC;" in out,
+                           "lupa-bridge-metatable-obtained": "BRIDGEMT;" in out,
+                           "lupa-bridge-metatable-written": "BRIDGEMT-WRITTEN;" in out,
+                           "live-connection-pool-obtained": "POOL;" in out}
                     os.write(w, json.dumps([name, out[:300], can]).encode())
                 finally:
                     os._exit(0)
